@@ -17,11 +17,23 @@ type Program struct {
 	SSA   *ssa.Program
 	Fset  *token.FileSet
 	infos sync.Map // *ssa.Function -> *fnInfo
+	names sync.Map // *ssa.Function -> string
+	pkgPaths sync.Map
 	// NondetRange lists functions in which `range` over a map visits entries in an arbitrary
 	// (decision) order; elsewhere insertion order is used.
 	NondetRange map[string]bool
 	// InitPkgs lists package paths whose init() is executed (imports' inits skipped) on first global access.
 	InitPkgs map[string]bool
+}
+
+// fnName caches ssa.Function.String(), which is expensive.
+func (p *Program) fnName(fn *ssa.Function) string {
+	if v, ok := p.names.Load(fn); ok {
+		return v.(string)
+	}
+	s := fn.String()
+	p.names.Store(fn, s)
+	return s
 }
 
 type fnInfo struct {
